@@ -21,7 +21,9 @@ RULE = (
     "or +-2 days (25%); T is presented naive (UTC wall time), in UTC, with a fixed offset (+-hh:mm[:ss]), or in a zoneinfo / "
     "pytz zone. Oracle in integer microseconds since the epoch: T <= now => 0; T > horizon => None; otherwise the "
     "result is an int d with T <= now + d*10^6 < T + 10^6. Non-trivial: |delta - k s| <= 1 us for an integer k, or T "
-    "within 2 us of the horizon, or now within 1 ms of a minute boundary; distinct = canonical JSON."
+    "within 2 us of the horizon, or now within 1 ms of a minute boundary; distinct = canonical JSON. Part 'loop_runs' observes the same rule through the real run_scheduler_loop on the virtual-time loop: "
+    "1-2 scripted sources that take 0-3.3 s to answer a listing, one-shots with T around the start / completion of a listing; every send must be at an instant s with "
+    "T <= s, and s < T + 1 s unless s is the instant a listing completed (T had already passed when the schedule was first evaluated). Non-trivial there: a T that falls between the start and the completion of a listing."
 )
 ASSUMPTIONS = ["the check process runs with TZ=Asia/Kathmandu so that any dependence on the local zone shows", "the controlled clock replaces taskiq.cli.scheduler.run.datetime"]
 
@@ -127,6 +129,80 @@ def run_case(case: Dict[str, Any]) -> Outcome:
     out.classes = [cls, "tz:" + case["tz"]["k"]] + [c for c, f in (("whole_second_edge", edge), ("near_horizon", near_h), ("now_near_boundary", near_b)) if f]
     out.trace = {"got": got, "T": T.isoformat()}
     return out
+
+
+# ---------------------------------------------------------------------------------------------------------------
+# the same rule observed through the real scheduler loop: sources that need time to answer a listing
+
+
+def loop_runs() -> Any:
+    def fin(d: Dict[str, Any]) -> Dict[str, Any]:
+        base = d["base"] // MIN * MIN + d["bsec"] * SEC + d["bus"]
+        m0 = base // MIN * MIN
+        sources = []
+        for si, (lat, shots) in enumerate(d["sources"]):
+            ents = []
+            for j, (k, delta, naive, add_at) in enumerate(shots):
+                poll_start = base if k == 0 else m0 + k * MIN
+                ents.append({"id": f"o{si}_{j}", "t_off_us": poll_start + delta - base, "naive": naive, "add_at": min(add_at, k), "remove_at": None})
+            sources.append({"kind": "scripted", "entries": ents, "fail_polls": [], "list_latency": lat})
+        return {"loop": True, "base_us": base, "horizon_min": 3, "sources": sources, "latencies": [0.0], "kick_fail": []}
+
+    shot = st.tuples(st.integers(0, 2),
+                     st.one_of(st.integers(-2 * SEC, 4 * SEC), st.sampled_from([0, 1, -1, SEC, SEC // 2, 2 * SEC + SEC // 2, 3 * SEC - 1])),
+                     st.booleans(), st.integers(0, 2))
+    return st.fixed_dictionaries({
+        "base": st.integers(clock.to_us(dtm.datetime(2024, 1, 1, tzinfo=clock.UTC)), clock.to_us(dtm.datetime(2026, 1, 1, tzinfo=clock.UTC))),
+        "bsec": st.sampled_from([0, 12, 30, 57, 59]), "bus": st.sampled_from([0, 1, 500_000, 999_999]),
+        "sources": st.lists(st.tuples(st.sampled_from([0.0, 0.0, 0.4, 1.0, 2.5, 3.3]), st.lists(shot, min_size=1, max_size=3)), min_size=1, max_size=2),
+    }).map(fin)
+
+
+def run_loop_case(case: Dict[str, Any]) -> Outcome:
+    from vt.harness import sched
+
+    out = Outcome()
+    out.clauses_checked = ["C14.c"]
+    res = sched.run_sched(case)
+    if res["crashed"] or res["deadlock"]:
+        out.add("C14.c", f"the scheduler loop stopped: {res['loop_exc']}")
+        return out
+    base = case["base_us"]
+    polls = list(res["polls"].values())
+    n_pass = min(len(p) for p in polls)
+    starts = [min(p[j]["t"] for p in polls) for j in range(n_pass)]
+    evals = [max(p[j].get("ret", p[j]["t"]) for p in polls) for j in range(n_pass)]     # the listing of pass j is complete
+    target = {e["id"]: base + e["t_off_us"] for s in case["sources"] for e in s["entries"]}
+    in_flight = False
+    for T in target.values():
+        in_flight = in_flight or any(starts[j] < T <= evals[j] for j in range(n_pass))
+    for k in res["kicks"]:
+        T = target.get(k["tag"])
+        if T is None:
+            continue
+        desc = f"one-shot {k['tag']} T={clock.from_us(T).isoformat()} sent at T{(k['t'] - T) / 1e6:+.6f} s; listings completed at " \
+               f"{[clock.from_us(e).time().isoformat() for e in evals]} (latencies {[s['list_latency'] for s in case['sources']]})"
+        if k["t"] < T - 2:
+            out.add("C14.c", desc + ": EARLY")
+        elif k["t"] >= T + SEC and not any(abs(k["t"] - e) <= 2 for e in evals):
+            out.add("C14.c", desc + ": a second or more late although it was not sent straight from an evaluation")
+    out.nontrivial = in_flight
+    out.classes = ["loop"] + (["due_while_listing_in_flight"] if in_flight else []) + \
+                  (["slow_source"] if any(s["list_latency"] for s in case["sources"]) else [])
+    out.trace = {"kicks": [[k["tag"], k["t"] - base] for k in res["kicks"]], "evals": [e - base for e in evals]}
+    return out
+
+
+_base_parts, _base_run = parts, run_case
+
+
+def parts(tier: str) -> List[Part]:  # type: ignore[no-redef]
+    n = 2500 if tier == "thorough" else 200
+    return _base_parts(tier) + [Part("loop_runs", "given", shards=8, examples=n, strategy=loop_runs, soft_deadline_s=1500 if tier == "thorough" else 100)]
+
+
+def run_case(case: Dict[str, Any]) -> Outcome:  # type: ignore[no-redef]
+    return run_loop_case(case) if case.get("loop") else _base_run(case)
 
 
 SELFTEST_CASES = [{"now_us": N0 + 59_999_999, "delta_us": 1_000_001, "tz": {"k": "naive"}}]
